@@ -69,7 +69,19 @@ void *lltd_port_malloc(size_t size) {
     }
     V_REQUIRE("port.malloc.size-nonzero", size > 0);
     void *p;
-#if defined(V_TXCAP) && !defined(V_REPLAY)
+#if defined(V_TXOVER) && !defined(V_REPLAY)
+    /* over-sized object abstraction (symbolic small MTUs): the transmit buffer object has the constant size V_TXOVER >= every
+     * admissible request, the REQUESTED size is recorded, and every write of the port into it is checked against the request
+     * (lltd_port_memcpy / lltd_port_memset below, transmit length in the oracle) - CBMC's own bounds check cannot see it */
+    if (size >= 40) {
+        V_REQUIRE("model.txover: request not larger than the modelled object", size <= V_TXOVER);
+        p = malloc(V_TXOVER);
+        g_led.tx_buf = p;
+        g_led.tx_req = size;
+    } else {
+        p = malloc(size);
+    }
+#elif defined(V_TXCAP) && !defined(V_REPLAY)
     if (size > V_SMALL_MAX) {
         V_REQUIRE("model.txcap: request not smaller than the modelled capacity", size >= V_TXCAP);
 #ifdef V_TX_STATIC
@@ -151,6 +163,12 @@ void *lltd_port_memcpy(void *destination, const void *source, size_t num) {
 #else
     uint8_t *d = (uint8_t *)destination;
     const uint8_t *s = (const uint8_t *)source;
+#ifdef V_TXOVER
+    if (g_led.tx_buf != NULL && __CPROVER_same_object(d, g_led.tx_buf)) {
+        V_REQUIRE("C01.tx-write-inside-request: a copy into the transmit buffer stays inside the requested size",
+                  (size_t)__CPROVER_POINTER_OFFSET(d) + num <= g_led.tx_req);
+    }
+#endif
     if (num <= 64 && g_req.kind != V_K_QLTV) {
         /* constant-size copies of the TLV writers / QueryResp assembly */
 #ifdef V_MEMCPY_BYTES
